@@ -178,12 +178,26 @@ func VfH_enc() {
 	// (1) independent disassembler
 	buf := []byte{byte(x), byte(x >> 8), byte(x >> 16), byte(x >> 24)}
 	inst, derr := riscv64asm.Decode(buf)
+	if !vfSymbolic() {
+		vfLog("xarch: " + inst.String())
+		if a2, g2, _, e2 := DecodeEx(x); e2 == nil {
+			vfLog("wa: " + AsmSyntax(a2, "", g2))
+		}
+	}
 	vfAssert(derr == nil, "enc/xarch-decodes")
 	if derr == nil {
 		vfAssert(vfNorm(inst.Op.String()) == vfNorm(name), "enc/xarch-same-op")
 		xo := vfXarchOperands(inst)
 		wo := vfWaOperands(ctx, arg, xo.hasBase)
-		if xo.hasCSR {
+		if as == AFENCE {
+			// fence: the disassembler shows pred,succ (imm[7:4], imm[3:0]); rd/rs1 are
+			// reserved fields it does not show, so only x0 there is "the same operands";
+			// fm (imm[11:8]) is not shown either.
+			pred, okp := inst.Args[0].(riscv64asm.MemOrder)
+			succ, oks := inst.Args[1].(riscv64asm.MemOrder)
+			vfAssert(okp && oks && arg.Rd == REG_X0 && arg.Rs1 == REG_X0, "enc/xarch-same-registers")
+			vfAssert(okp && oks && uint32(arg.Imm) == uint32(pred)<<4|uint32(succ), "enc/xarch-same-immediate")
+		} else if xo.hasCSR {
 			// Zicsr: Wa passes the CSR number as Imm (taken modulo 2^12) and, for the
 			// immediate forms, the 5-bit zimm as register number of Rs1.
 			if xo.nimm == 1 {
@@ -238,6 +252,71 @@ func VfH_enc() {
 	}
 }
 
+// vfPseudoBase: the base instruction each pseudo-instruction stands for, from
+// the RISC-V assembly programmer's manual (the table's own PseudoAs column is
+// what is under test, so it is only the fallback for mnemonics not listed here).
+func vfPseudoBase(as, fallback abi.As) abi.As {
+	switch as {
+	case A_NOP, A_MV:
+		return AADDI
+	case A_NOT:
+		return AXORI
+	case A_NEG:
+		return ASUB
+	case A_NEGW:
+		return ASUBW
+	case A_SEXT_W:
+		return AADDIW
+	case A_SEQZ:
+		return ASLTIU
+	case A_SNEZ:
+		return ASLTU
+	case A_SLTZ, A_SGTZ:
+		return ASLT
+	case A_FMV_S:
+		return AFSGNJ_S
+	case A_FABS_S:
+		return AFSGNJX_S
+	case A_FNEG_S:
+		return AFSGNJN_S
+	case A_FMV_D:
+		return AFSGNJ_D
+	case A_FABS_D:
+		return AFSGNJX_D
+	case A_FNEG_D:
+		return AFSGNJN_D
+	case A_BEQZ:
+		return ABEQ
+	case A_BNEZ:
+		return ABNE
+	case A_BLEZ, A_BGEZ, A_BLE:
+		return ABGE
+	case A_BLTZ, A_BGTZ, A_BGT:
+		return ABLT
+	case A_BGTU:
+		return ABLTU
+	case A_BLEU:
+		return ABGEU
+	case A_J:
+		return AJAL
+	case A_JR, A_RET:
+		return AJALR
+	case A_RDINSTRET, A_RDCYCLE, A_RDTIME, A_CSRR, A_CSRS, A_FRCSR, A_FRRM, A_FRFLAGS:
+		return ACSRRS
+	case A_CSRW, A_FSCSR, A_FSRM, A_FSFLAGS:
+		return ACSRRW
+	case A_CSRC:
+		return ACSRRC
+	case A_CSRWI:
+		return ACSRRWI
+	case A_CSRSI:
+		return ACSRRSI
+	case A_CSRCI:
+		return ACSRRCI
+	}
+	return fallback
+}
+
 func VfN_pseudo() int { return len(vfEncList(true)) }
 
 // Pseudo-instructions: whatever EncodeRV64 accepts must disassemble to the
@@ -265,8 +344,11 @@ func VfH_pseudo() {
 	}
 	buf := []byte{byte(x), byte(x >> 8), byte(x >> 16), byte(x >> 24)}
 	inst, derr := riscv64asm.Decode(buf)
+	if !vfSymbolic() {
+		vfLog("xarch: " + inst.String() + " base: " + AsString(vfPseudoBase(as, ctx.PseudoAs), ""))
+	}
 	vfAssert(derr == nil, "pseudo/xarch-decodes")
 	if derr == nil {
-		vfAssert(vfNorm(inst.Op.String()) == vfNorm(AsString(ctx.PseudoAs, "")), "pseudo/xarch-decodes-to-base-op")
+		vfAssert(vfNorm(inst.Op.String()) == vfNorm(AsString(vfPseudoBase(as, ctx.PseudoAs), "")), "pseudo/xarch-decodes-to-base-op")
 	}
 }
